@@ -262,6 +262,17 @@ func (fe *FactEngine) ensures(fn *ssa.Function) []relFact {
 		fe.ensCache[fn] = nil
 		return nil
 	}
+	// bool validators written as an expression (`return in != nil && len(in.Hash) == 32`): what the
+	// returned value being true implies, per return
+	implied := map[*ssa.Return][]pfact{}
+	if errIndex(fn) < 0 {
+		for _, r := range rets {
+			implied[r] = fe.boolResultFacts(fn, r)
+			for _, f := range implied[r] {
+				cands[f] = true
+			}
+		}
+	}
 	for f := range cands {
 		pi, rel, ok := splitParam(fn, f.path)
 		if !ok {
@@ -269,7 +280,16 @@ func (fe *FactEngine) ensures(fn *ssa.Function) []relFact {
 		}
 		all := true
 		for _, r := range rets {
-			if !fe.holdsAtBlock(fn, r.Block(), f) {
+			if fe.holdsAtBlock(fn, r.Block(), f) {
+				continue
+			}
+			viaValue := false
+			for _, g := range implied[r] {
+				if g.implies(f) {
+					viaValue = true
+				}
+			}
+			if !viaValue {
 				all = false
 				break
 			}
@@ -549,4 +569,64 @@ func (fe *FactEngine) resultEnsures(fn *ssa.Function) []relFact {
 	}
 	fe.resCache[fn] = out
 	return out
+}
+
+// condPFacts: path facts implied by value cond being true/false (not necessarily a branch condition).
+func condPFacts(cond ssa.Value, truth bool) []pfact {
+	out := lenFactsOf(cond, truth)
+	for _, f := range condFacts(cond, truth) {
+		if f.kind == fNotNil {
+			out = append(out, pfact{kind: kNotNil, path: pathOf(f.x)})
+		}
+	}
+	return out
+}
+
+// boolResultFacts: facts implied by "the bool returned at r is true". The value is expanded through
+// φ-nodes (short-circuit && / ||): an incoming constant false cannot be the true result; every other
+// entry contributes its own condition and the facts that hold when its edge is taken; the result is
+// the intersection over the entries.
+func (fe *FactEngine) boolResultFacts(fn *ssa.Function, r *ssa.Return) []pfact {
+	if len(r.Results) != 1 {
+		return nil
+	}
+	var acc []pfact
+	first := true
+	for _, pe := range phiEntries(r.Results[0]) {
+		if bv, isC := boolConst(pe.val); isC && !bv {
+			continue
+		}
+		var here []pfact
+		if _, isC := boolConst(pe.val); !isC {
+			here = append(here, condPFacts(pe.val, true)...)
+		}
+		if pe.edge != nil {
+			// facts on the edge itself and facts that must hold at its source block
+			here = append(here, fe.factsOnEdgeDeep(fn, *pe.edge)...)
+			for _, b := range fn.Blocks {
+				for i := range b.Succs {
+					for _, f := range fe.factsOnEdgeDeep(fn, Edge{b, i}) {
+						if fe.holdsAtBlock(fn, pe.edge.From, f) {
+							here = append(here, f)
+						}
+					}
+				}
+			}
+		}
+		if first {
+			acc, first = here, false
+			continue
+		}
+		var keep []pfact
+		for _, a := range acc {
+			for _, b := range here {
+				if b.implies(a) {
+					keep = append(keep, a)
+					break
+				}
+			}
+		}
+		acc = keep
+	}
+	return acc
 }
